@@ -1016,6 +1016,8 @@ def gen_field(rng, desc, f, depth):
     if is_multi(f):
         if f['min'] <= 0 and rng.random() < 0.2:
             return ['none']
+        if f['min'] == 1 and f['nillable'] and rng.random() < 0.2:
+            return ['none']                 # None (not a list) for a mandatory repeated member: one xsi:nil element
         hi = 3 if f['max'] is None else f['max']
         lo = max(f['min'], 0)
         n = rng.randint(lo, max(lo, hi))
